@@ -12,7 +12,7 @@ from ..lib_c09 import (PInterp, PARAM, OTHER, literals_compared, make_equal_mode
                        copy_lazy_field, cls_of, chain, as_obj, mk_hideset, hideset_names, mk_tokens, m_copy_token_concrete,
                        strip_ids)
 from ..lib_c09x import Desc, show, calls_in, explore_expand, KNOWN_CALLS, explore_subst, SubstPath
-from ..lib_c09 import Agg
+from ..lib_c09 import Agg, NotConcrete
 
 U = 'preprocess.c'
 
@@ -27,13 +27,16 @@ def run(P, rep, tier):
                        '(placemarker bookkeeping of ## with empty operands is outside the claimed clauses).')
     rep.assumptions += ['calloc succeeds', 'loops over token lists are analysed for 0..2 generic iterations',
                         'tokenize() returns a NUL/EOF-terminated token list', 'clang 14 typed AST']
-    r_expand(P, u, rep)
+    eit, epaths = r_expand(P, u, rep)
     r_subst(P, u, rep)
     r_arg_one(P, u, rep)
     r_definition(P, u, rep)
-    r_hideset_prims(P, u, rep)
+    try:
+        r_hideset_prims(P, u, rep)
+    except NotConcrete as e:
+        rep.undecided('R09.7', '%s:hideset:not-concrete' % U, 'the interpreter cannot follow a hide-set primitive to a concrete list (%s)' % e)
     r_stringize(P, u, rep)
-    r_builtins(P, u, rep)
+    r_builtins(P, u, rep, eit, epaths)
 
 
 # ------------------------------------------------------------------ expand_macro ---
@@ -59,8 +62,8 @@ def r_expand(P, u, rep):
     line = u.fn(fn).line
     where = '%s:%d' % (U, line)
     rep.rule('R09.1', 'expand_macro tests hideset_contains(tok->hideset, tok->loc, tok->len) before anything else and does not expand a token whose own name is in its hide set', floor=4)
-    rep.rule('R09.2', 'on every path that expands a non-builtin macro, all tokens of the result (body, substituted arguments, pasted tokens) get hideset ∪ {macro name}: add_hideset is applied to the finished replacement, with (invoking token\'s set) for object-like and (macro token ∩ closing paren) for function-like macros; the replacement is followed by the token after the invocation', floor=4)
-    rep.rule('R09.4', 'a function-like macro name not followed by "(" is not expanded: the test dominates read_macro_args', floor=2)
+    rep.rule('R09.2', 'on every path that expands a non-builtin macro, all tokens of the result (body, substituted arguments, pasted tokens) get hideset ∪ {macro name}: add_hideset is applied to the finished replacement, with (invoking token\'s set) for object-like and (macro token ∩ closing paren) for function-like macros; the replacement is followed by the token after the invocation', floor=6)
+    rep.rule('R09.4', 'a function-like macro name not followed by "(" is not expanded: the test dominates read_macro_args', floor=4)
     n_obj = n_fun = n_handler = 0
     for ctx, out, rest in paths:
         D = Desc(it, ctx)
@@ -192,7 +195,7 @@ def r_subst(P, u, rep):
     fn = 'subst'
     it, paths, classes = explore_subst(P, u)
     line = u.fn(fn).line
-    rep.rule('R09.3', 'in subst the operands of # and ## are taken unexpanded (stringize/paste/copy of arg->tok), and exactly the parameters that are not operands of # or ## are replaced by preprocess2(arg->tok)', floor=4)
+    rep.rule('R09.3', 'in subst the operands of # and ## are taken unexpanded (stringize/paste/copy of arg->tok), and exactly the parameters that are not operands of # or ## are replaced by preprocess2(arg->tok)', floor=5)
     for need in ('#', '##'):
         if need not in classes:
             raise AnalysisBroken('subst no longer compares tokens against %r' % need)
@@ -317,7 +320,7 @@ def r_arg_one(P, u, rep):
     fn = 'read_macro_arg_one'
     if fn not in u.functions or 'new_eof' not in u.functions:
         raise AnalysisBroken('anchor %s/new_eof vanished' % fn)
-    rep.rule('R09.5', 'read_macro_arg_one copies tokens while tracking parenthesis depth: it stops only at depth 0 on ")" (or "," unless reading the variadic rest), diagnoses EOF, and returns the copied list terminated by an EOF token with *rest at the terminator', floor=6)
+    rep.rule('R09.5', 'read_macro_arg_one copies tokens while tracking parenthesis depth: it stops only at depth 0 on ")" (or "," unless reading the variadic rest), diagnoses EOF, and returns the copied list terminated by an EOF token with *rest at the terminator', floor=9)
     lits = literals_compared(u.fn(fn))
     for need in ('(', ')', ','):
         if need not in lits:
@@ -424,7 +427,7 @@ def r_definition(P, u, rep):
     for f in (fn, 'read_macro_params', 'add_macro', 'copy_line'):
         if f not in u.functions:
             raise AnalysisBroken('anchor %s vanished' % f)
-    rep.rule('R09.6', 'a #define introduces a function-like macro iff "(" follows the name with no white space; the name must be an identifier; parameters and body are read from the right tokens and stored in the Macro', floor=5)
+    rep.rule('R09.6', 'a #define introduces a function-like macro iff "(" follows the name with no white space; the name must be an identifier; parameters and body are read from the right tokens and stored in the Macro', floor=8)
     lits = literals_compared(u.fn(fn))
     if '(' not in lits:
         raise AnalysisBroken('%s no longer compares a token against "("' % fn)
@@ -545,7 +548,7 @@ def r_hideset_prims(P, u, rep):
     for f in ('hideset_union', 'hideset_intersection', 'hideset_contains', 'new_hideset', 'add_hideset', 'append', 'copy_token'):
         if f not in u.functions:
             raise AnalysisBroken('anchor %s vanished' % f)
-    rep.rule('R09.7', 'hide-set primitives, evaluated by the interpreter on all pairs of lists of length <= 2 over {a, ab, b}: union keeps every name of both, intersection keeps exactly the common names, membership compares length and bytes; add_hideset extends every token of a list on fresh copies; append copies the first list (without its EOF) in front of the second', floor=7)
+    rep.rule('R09.7', 'hide-set primitives, evaluated by the interpreter on all pairs of lists of length <= 2 over {a, ab, b}: union keeps every name of both, intersection keeps exactly the common names, membership compares length and bytes; add_hideset extends every token of a list on fresh copies; append copies the first list (without its EOF) in front of the second', floor=9)
     names = ['a', 'ab', 'b']
     lists = [[]] + [[x] for x in names] + [[x, y] for x in names for y in names]
     it = _conc(P, u)
@@ -624,17 +627,24 @@ def _m_strncpy(it, ctx, n, args):
     return d
 
 
+class _Opaque(Exception):
+    pass
+
+
 def _cstr(v):
-    if isinstance(v, _Ref) and isinstance(v.place, ElemPlace) and isinstance(v.place.arr, Arr):
+    """C string behind a char* value; None = no terminating NUL inside the buffer; raises _Opaque when not concrete"""
+    if isinstance(v, _Ref) and isinstance(v.place, ElemPlace) and isinstance(v.place.arr, Arr) and isinstance(v.place.i, int):
         out = []
         for c in v.place.arr.elems[v.place.i:]:
             if not isinstance(c, int):
-                return None
+                raise _Opaque(repr(c))
             if c == 0:
                 return ''.join(out)
             out.append(chr(c & 0xff))
         return None     # unterminated
-    return v if isinstance(v, str) else None
+    if isinstance(v, str):
+        return v
+    raise _Opaque(repr(v))
 
 
 def _run1ctx(it, fname, args):
@@ -655,7 +665,11 @@ def r_stringize(P, u, rep):
     # quote_string
     for sx in ['', 'a', 'a"b', 'a\\b', '\\', '"', '\\"', 'x\\n"y"', "'\\\\'"]:
         ctx, r = _run1ctx(it, 'quote_string', [sx])
-        got = _cstr(r)
+        try:
+            got = _cstr(r)
+        except _Opaque as e:
+            rep.undecided('R09.9', '%s:quote_string:not-concrete' % U, 'the interpreter cannot follow quote_string(%r) to a concrete string (%s)' % (sx, e), where=ln('quote_string'))
+            continue
         want = '"' + sx.replace('\\', '\\\\').replace('"', '\\"') + '"'
         bad = 'backslash' if ('\\' in sx and (got is None or got.count('\\') < want.count('\\'))) else ('quote' if '"' in sx else 'plain')
         A.ob('R09.9', '%s:quote_string:escapes-%s' % (U, 'quote-and-backslash' if got == want else bad), got == want,
@@ -668,7 +682,11 @@ def r_stringize(P, u, rep):
     for spec, want in cases:
         toks = mk_tokens([{'loc': l, 'has_space': h, 'at_bol': 0} for l, h in spec], eof, ident)
         ctx, r = _run1ctx(it, 'join_tokens', [toks[0], 0])
-        got = _cstr(r)
+        try:
+            got = _cstr(r)
+        except _Opaque as e:
+            rep.undecided('R09.9', '%s:join_tokens:not-concrete' % U, 'the interpreter cannot follow join_tokens to a concrete string (%s)' % e, where=ln('join_tokens'))
+            continue
         first_sp = bool(spec) and spec[0][1] == 1
         key = 'spacing' if got == want else ('leading-space' if got is not None and got.startswith(' ') and first_sp else ('missing-space' if got is not None and got.replace(' ', '') == want.replace(' ', '') and len(got) < len(want) else 'spacing-wrong'))
         A.ob('R09.9', '%s:join_tokens:%s' % (U, key), got == want,
@@ -677,7 +695,10 @@ def r_stringize(P, u, rep):
         A.ob('R09.9', '%s:join_tokens:buffer-size' % U, not over, 'join_tokens writes past its buffer (%s)' % (over,), ln('join_tokens'))
     toks = mk_tokens([{'loc': 'a'}, {'loc': 'b', 'has_space': 1}, {'loc': 'c', 'has_space': 1}], eof, ident)
     ctx, r = _run1ctx(it, 'join_tokens', [toks[0], toks[2]])
-    A.ob('R09.9', '%s:join_tokens:stops-at-end' % U, _cstr(r) == 'a b', 'join_tokens(tok, end) does not stop before `end` (got %r)' % _cstr(r), ln('join_tokens'))
+    try:
+        A.ob('R09.9', '%s:join_tokens:stops-at-end' % U, _cstr(r) == 'a b', 'join_tokens(tok, end) does not stop before `end` (got %r)' % _cstr(r), ln('join_tokens'))
+    except _Opaque as e:
+        rep.undecided('R09.9', '%s:join_tokens:not-concrete' % U, 'the interpreter cannot follow join_tokens to a concrete string (%s)' % e, where=ln('join_tokens'))
     # wiring of stringize / new_str_token
     it2 = PInterp(P, u, {'opaque': ['join_tokens', 'new_str_token']})
     for ctx, out in it2.explore('stringize', lambda ctx: [Obj('Token', lazy=True, label='hash'), Obj('Token', lazy=True, label='arg')]):
@@ -715,5 +736,133 @@ def r_stringize(P, u, rep):
         rep.undecided('R09.9', '%s:paste:paths' % U, 'paste has %d returning and %d diagnosing paths' % (nret, nerr), where=ln('paste'))
 
 
-def r_builtins(P, u, rep):
-    pass
+BUILTINS = ('__FILE__', '__LINE__', '__COUNTER__', '__TIMESTAMP__', '__BASE_FILE__')
+
+
+def _origin_chain(it, tmpl):
+    out = [tmpl]
+    v = tmpl
+    while len(out) < 8:
+        o = v.fields.get('origin')
+        if o is None:
+            break
+        o = it.settle(o)
+        if not isinstance(o, Obj):
+            break
+        out.append(o)
+        v = o
+    return out
+
+
+def _outermost(it, x):
+    o = x.fields.get('origin')
+    if o is None:
+        return False
+    o = it.settle(o)
+    return isinstance(o, int) and o == 0
+
+
+def r_builtins(P, u, rep, eit, epaths):
+    fn = 'expand_macro'
+    for f in ('init_macros', 'add_builtin', 'add_macro', 'new_num_token', 'new_str_token'):
+        if f not in u.functions:
+            raise AnalysisBroken('anchor %s vanished' % f)
+    rep.rule('R09.8', 'the five dynamic macros are registered with a handler of the right behaviour (__LINE__/__FILE__ from the outermost invocation, __COUNTER__ counts up by one per use), the handler test precedes the ordinary expansion paths and its result replaces exactly the one macro token', floor=14)
+    A = Agg(rep)
+    ln = lambda f: '%s:%d' % (U, u.fn(f).line)
+    # -- application path
+    for ctx, out, rest in epaths:
+        ic = [e for e in ctx.events if e[0] == 'icall']
+        if not ic:
+            continue
+        D = Desc(eit, ctx)
+        facts = {'path': ctx.trail}
+        e = ic[0]
+        names = [x[1] for x in ctx.events if x[0] == 'call']
+        A.ob('R09.8', '%s:%s:handler-called-with-macro-token' % (U, fn), strip_ids(repr(e[1])) == 'find_macro.handler' and [show(D.of(a)) for a in e[2]] == ['tok'],
+             'the dynamic macro handler is invoked as %s(%s) instead of m->handler(tok)' % (strip_ids(repr(e[1])), ', '.join(show(D.of(a)) for a in e[2])), '%s:%d' % (U, e[3]), facts)
+        A.ob('R09.8', '%s:%s:handler-before-ordinary-expansion' % (U, fn), not any(nm in ('add_hideset', 'append', 'subst', 'read_macro_args') for nm in names),
+             'a dynamic macro (registered with a NULL body) also runs the ordinary replacement path (%s)' % names, ln(fn), facts)
+        r = as_obj(eit, rest) if not (isinstance(rest, int)) else None
+        okr = isinstance(r, Obj) and show(D.of(r)) == '<handler>(tok)'
+        A.ob('R09.8', '%s:%s:handler-result-spliced' % (U, fn), okr and out[0] == 'ret' and eit.settle(out[1]) == 1,
+             'the handler\'s token is not handed back through *rest with result true', ln(fn), facts)
+        if okr:
+            nx = r.fields.get('next')
+            A.ob('R09.8', '%s:%s:handler-result-replaces-one-token' % (U, fn), nx is not None and show(D.of(nx)) == 'tok.next',
+                 'the token produced by the handler is followed by %s instead of tok->next: the rest of the line is lost or the macro name is re-read' % (show(D.of(nx)) if nx is not None else 'whatever tokenize() left (EOF)'), ln(fn), facts)
+    # -- registrations
+    reg = {}
+    for c in u.fn('init_macros').calls('add_builtin'):
+        a = c.args()
+        nm = a[0].str_value() if a else None
+        f = a[1].strip() if len(a) > 1 else None
+        if nm is None or f is None or f.kind != 'DeclRefExpr' or f.ref_kind != 'FunctionDecl':
+            rep.undecided('R09.8', '%s:init_macros:registration-shape' % U, 'add_builtin call with non-literal operands', where='%s:%d' % (U, c.line))
+            continue
+        reg[nm] = (f.ref_name, c.line)
+    for nm in BUILTINS:
+        A.ob('R09.8', '%s:init_macros:registers-%s' % (U, nm), nm in reg and reg[nm][0] in u.functions,
+             'the dynamic macro %s is not registered with a handler: it expands to nothing / stays an identifier' % nm, ln('init_macros'))
+    # add_builtin stores the handler
+    it = PInterp(P, u, {'opaque': ['add_macro'], 'track_stores': True})
+    for ctx, out in it.explore('add_builtin', lambda ctx: [Sym('name', 'char *'), Sym('fn', 'macro_handler_fn *')]):
+        st = [e for e in ctx.events if e[0] == 'fstore' and e[2] == 'handler']
+        am = [e for e in ctx.events if e[0] == 'call' and e[1] == 'add_macro']
+        ok = out[0] == 'ret' and len(am) == 1 and getattr(am[0][2][0], 'name', None) == 'name' and len(st) == 1 and getattr(st[0][4], 'name', None) == 'fn' and \
+            as_obj(it, out[1]) is as_obj(it, am[0][4]) and st[0][1] is as_obj(it, am[0][4])
+        A.ob('R09.8', '%s:add_builtin:stores-handler' % U, ok, 'add_builtin does not store its function argument as the handler of the macro it registers under `name`', ln('add_builtin'))
+    # -- handler behaviour
+    def explore_handler(h):
+        ith = PInterp(P, u, {'opaque': ['new_num_token', 'new_str_token', 'stat', 'ctime_r'], 'loop_limit': 2, 'track_stores': True})
+        def mk(ctx):
+            ctx.tmpl = Obj('Token', lazy=True, label='tmpl')
+            return [ctx.tmpl]
+        return ith, ith.explore(h, mk)
+
+    for nm in BUILTINS:
+        if nm not in reg or reg[nm][0] not in u.functions:
+            continue
+        h = reg[nm][0]
+        ith, hp = explore_handler(h)
+        where = ln(h)
+        nret = 0
+        for ctx, out in hp:
+            if out[0] != 'ret':
+                continue
+            nret += 1
+            D = Desc(ith, ctx)
+            d = D.of(out[1])
+            facts = {'path': ctx.trail, 'returns': show(d)}
+            ch = _origin_chain(ith, ctx.tmpl)
+            last = ch[-1]
+            pre = strip_ids(last.label)
+            if nm == '__LINE__':
+                ok = d[0] == 'call' and d[1] == 'new_num_token'
+                A.ob('R09.8', '%s:%s:%s-yields-number-token' % (U, h, nm), ok, '%s expands to %s, not to a number token' % (nm, show(d)), where, facts)
+                if ok:
+                    ce = [e for e in ctx.events if e[0] == 'call' and e[1] == 'new_num_token'][-1]
+                    from ..interp import Lin
+                    l = Lin.of(ce[2][0])
+                    terms = sorted(strip_ids(repr(lf)) for k, (c, lf) in l.terms.items()) if isinstance(l, Lin) else None
+                    good = isinstance(l, Lin) and l.c == 0 and all(c == 1 for k, (c, lf) in l.terms.items())
+                    A.ob('R09.8', '%s:%s:%s-line-of-outermost-invocation' % (U, h, nm), good and terms == sorted([pre + '.line_no', pre + '.file.line_delta']) and _outermost(ith, last),
+                         '%s yields %r; it must be line_no + file->line_delta of the outermost macro invocation (origin chain followed to its end; here the chain was followed %d step(s) and stopped at a token whose origin is %s)' % (nm, ce[2][0], len(ch) - 1, 'NULL' if _outermost(ith, last) else 'not known to be NULL'), where, facts)
+            elif nm == '__FILE__':
+                want = 'new_str_token(%s.file.display_name, %s)' % (pre, pre)
+                A.ob('R09.8', '%s:%s:%s-name-of-outermost-invocation' % (U, h, nm), show(d) == want and _outermost(ith, last),
+                     '%s expands to %s; it must be the display name of the file of the outermost invocation (origin chain followed to its end)' % (nm, show(d)), where, facts)
+            elif nm == '__COUNTER__':
+                ce = [e for e in ctx.events if e[0] == 'call' and e[1] == 'new_num_token']
+                st = [(k, v) for k, v in ctx.globals.items() if k.startswith('static:')]
+                ok = d[0] == 'call' and d[1] == 'new_num_token' and len(ce) == 1 and isinstance(ce[0][2][0], int) and len(st) == 1 and st[0][1] == ce[0][2][0] + 1
+                A.ob('R09.8', '%s:%s:%s-counts-up' % (U, h, nm), ok,
+                     '%s: the handler passes %r and leaves its counter at %r; each use must yield the current value and advance it by one' % (nm, ce[0][2][0] if ce else None, st[0][1] if st else None), where, facts)
+                A.ob('R09.8', '%s:%s:%s-starts-at-zero' % (U, h, nm), bool(ce) and ce[0][2][0] == 0, '%s does not start at 0' % nm, where, facts)
+            elif nm == '__BASE_FILE__':
+                A.ob('R09.8', '%s:%s:%s-is-base-file' % (U, h, nm), show(d) == 'new_str_token(g:base_file, tmpl)', '%s expands to %s instead of the string base_file' % (nm, show(d)), where, facts)
+            else:
+                A.ob('R09.8', '%s:%s:%s-yields-string-token' % (U, h, nm), d[0] == 'call' and d[1] == 'new_str_token', '%s expands to %s, not to a string token' % (nm, show(d)), where, facts)
+        if nret == 0:
+            rep.undecided('R09.8', '%s:%s:no-return-path' % (U, h), 'handler of %s has no returning path' % nm, where=where)
+    A.flush()
